@@ -30,66 +30,54 @@ Proof. exact c08_solvency_invariant. Qed.
 Theorem C08_invariant_step : ∀ c s m, inv c s → inv c (sys_step c s m).1.
 Proof. exact step_inv. Qed.
 
-(* Drain, part 1 (funding).  After ANY system history from fresh states, every recorded and
-   unpaid withdrawal of the L2 denom derived from d is covered by the escrow's balance of d -
-   given that the L2 supply of that denom is not negative (the C09 supply ledger) - or a denom
-   collision is exhibited.  (The non-negativity of the other ledger terms is proved: event and
-   withdrawal amounts and donations are >= 0 in every reachable state; the codec premise is
-   the one of C04_recorded_fields.) *)
-Theorem C08_drain_funded_partial : ∀ (c : scfg) (s0 : sys) (h : list smsg) (d : bytes) (w : L2.wrec),
-  fresh c s0 → L2.resolve (c2 c) [] = None →
+(* [genesis c s] = fresh, and the L2 bank is consistent (no negative balance; the supply of every
+   denom is the sum of its balances).  Along every system history the L2 bank stays consistent
+   (Proofs/BankNonneg.v, Proofs/BankTotal.v), so the L2 supply is never negative. *)
+
+(* Drain, part 1 (funding).  After ANY system history from genesis, every recorded and unpaid
+   withdrawal of the L2 denom derived from d is covered by the escrow's balance of d, or a denom
+   collision is exhibited.  (Codec premise as in C04_recorded_fields.) *)
+Theorem C08_drain_funded : ∀ (c : scfg) (s0 : sys) (h : list smsg) (d : bytes) (w : L2.wrec),
+  genesis c s0 → L2.resolve (c2 c) [] = None →
   let s := sys_run c s0 h in
-  (0 ≤ gets (L2.bk (l2 s)) (l2d c d))%Z →
   w ∈ L2.wlog (l2 s) → L2.w_seq w ∉ paid s → L2.w_denom w = l2d c d →
   (L2.w_amt w ≤ getb (L1.bk (l1 s)) (escrow_of c) d)%Z ∨ denom_collision c.
-Proof. exact c08_unpaid_funded. Qed.
+Proof. exact c08_drain_funded. Qed.
 
-(* Drain, part 2 (acceptance).  After ANY system history from fresh states: the claim step for a
-   recorded, unpaid withdrawal m with positive amount and an L1-valid recipient, against an
-   output index that stores the honest root over an event range (lo,hi] containing m and is
-   final at the step's block time, is ACCEPTED - provided its leaf is not yet marked claimed
-   and the L2 supply of its denom is not negative - or a denom collision is exhibited.  By
-   C08_invariant_step the state after the claim satisfies the equation again, with m paid.
-   MISSING for the full C08_drain: (i) the "leaf not marked claimed" premise - removed by
-   C08_drain_claim_binding_partial below; (ii) supply >= 0 (C09); (iii) the schedule
-   bookkeeping (relay all, propose, wait, claim all; then escrow = supply + donations and the
-   conservation of combined holdings) - checked by the C08 stream's forced drain. *)
-Theorem C08_drain_claim_partial : ∀ (c : scfg) (s0 : sys) (h : list smsg) (e : L1.env) (sender : bytes)
+(* Drain, part 2 (acceptance of one claim).  After ANY system history from genesis: the claim
+   step for a recorded, UNPAID withdrawal m with positive amount and an L1-valid recipient,
+   against an output index that stores the honest root over an event range (lo,hi] containing m
+   and is final at the step's block time, is ACCEPTED - or a denom collision, or an explicit
+   collision of the hash function, is exhibited.  Counters are assumed not to wrap (bridge id
+   and next L2 sequence below 2^64, DESIGN section 8).  By C08_invariant_step the state after
+   the claim satisfies the equation again, with m paid. *)
+Theorem C08_drain_claim : ∀ (c : scfg) (s0 : sys) (h : list smsg) (e : L1.env) (sender : bytes)
     (idx m lo hi v : N) (bh : bytes) (w : L2.wrec) (x : L1.config) (o : L1.output) (rcv : N),
-  fresh c s0 → L2.resolve (c2 c) [] = None → (∀ y, length (L1.hash (c1 c) y) = 32%nat) →
-  let s := sys_run c s0 h in
-  (0 ≤ gets (L2.bk (l2 s)) (L2.w_denom w))%Z →
-  find_w (l2 s) m = Some w → m ∉ paid s → (lo < m ≤ hi)%N →
-  (0 < L2.w_amt w)%Z → L1.resolve (c1 c) (L2.w_to w) = Some rcv → is_Some (L1.resolve (c1 c) sender) →
-  (1 ≤ bid c)%N → (1 ≤ idx)%N →
-  L1.configs (l1 s) !! bid c = Some x → L1.outputs (l1 s) !! (bid c, idx) = Some o →
-  L1.o_root o = honest_root c (l2 s) lo hi v bh → L1.is_final x e o = true → length bh = 32%nat →
-  (bid c, wleaf c w) ∉ L1.proven (l1 s) →
-  (sys_step c s (SClaim e sender idx m lo hi v bh)).2 = true ∨ denom_collision c.
-Proof. exact c08_drain_claim. Qed.
-
-(* Drain, part 2 without the "leaf not marked claimed" premise: using the C03 leaf binding and
-   the invariant "every claimed leaf of the bridge is the leaf of a PAID recorded withdrawal",
-   an UNPAID recorded withdrawal (positive amount, L1-valid recipient, covered by an honest
-   final output) is accepted when claimed - or a denom collision, or an explicit collision of
-   the hash function, is exhibited.  Counters are assumed not to wrap (bridge id and next L2
-   sequence below 2^64, DESIGN section 8); the supply premise is C09's ledger. *)
-Theorem C08_drain_claim_binding_partial : ∀ (c : scfg) (s0 : sys) (h : list smsg) (e : L1.env) (sender : bytes)
-    (idx m lo hi v : N) (bh : bytes) (w : L2.wrec) (x : L1.config) (o : L1.output) (rcv : N),
-  fresh c s0 → L2.resolve (c2 c) [] = None → (∀ y, length (L1.hash (c1 c) y) = 32%nat) →
+  genesis c s0 → L2.resolve (c2 c) [] = None → (∀ y, length (L1.hash (c1 c) y) = 32%nat) →
   let s := sys_run c s0 h in
   (bid c < 18446744073709551616)%N → (L2.next_l2 (l2 s) ≤ 18446744073709551616)%N →
-  (0 ≤ gets (L2.bk (l2 s)) (L2.w_denom w))%Z →
   find_w (l2 s) m = Some w → m ∉ paid s → (lo < m ≤ hi)%N →
   (0 < L2.w_amt w)%Z → L1.resolve (c1 c) (L2.w_to w) = Some rcv → is_Some (L1.resolve (c1 c) sender) →
   (1 ≤ bid c)%N → (1 ≤ idx)%N →
   L1.configs (l1 s) !! bid c = Some x → L1.outputs (l1 s) !! (bid c, idx) = Some o →
   L1.o_root o = honest_root c (l2 s) lo hi v bh → L1.is_final x e o = true → length bh = 32%nat →
   (sys_step c s (SClaim e sender idx m lo hi v bh)).2 = true ∨ denom_collision c ∨ Collision (L1.hash (c1 c)).
-Proof. exact c08_drain_claim_binding. Qed.
+Proof. exact c08_drain_claim_g. Qed.
+
+(* Conservation of combined holdings.  After ANY system history from fresh states: what is held
+   of d on L1 outside the escrow (sum of all L1 balances of d minus the escrow's), plus the L2
+   supply of the derived denom, plus the value in flight (unrelayed deposits, unpaid
+   withdrawals) and the donations, equals the initial L1 total of d - or a denom collision. *)
+Theorem C08_holdings_conserved : ∀ (c : scfg) (s0 : sys) (h : list smsg) (d : bytes),
+  fresh c s0 →
+  let s := sys_run c s0 h in
+  ((bal_total (L1.bk (l1 s)) d - getb (L1.bk (l1 s)) (escrow_of c) d) +
+   gets (L2.bk (l2 s)) (l2d c d) + pending_dep c s d + pending_wd s (l2d c d) + donations s d
+   = bal_total (L1.bk (l1 s0)) d)%Z ∨ denom_collision c.
+Proof. exact c08_holdings_conserved. Qed.
 
 Print Assumptions C08_solvency_invariant.
 Print Assumptions C08_invariant_step.
-Print Assumptions C08_drain_funded_partial.
-Print Assumptions C08_drain_claim_partial.
-Print Assumptions C08_drain_claim_binding_partial.
+Print Assumptions C08_drain_funded.
+Print Assumptions C08_drain_claim.
+Print Assumptions C08_holdings_conserved.
